@@ -301,6 +301,78 @@ def _nb_counts(report):
     report.nontrivial = set(range(report.coverage.get("nb.queries_compared_with_tlc_oracle", 0)))
 
 
+# ---------------------------------------------------------------------------
+# linear policies (Lin.tla)
+LIN_GRIDS = {
+    1: dict(D=1, Ctx={(1,), (2,), (-1,), (3,)}, QuerySets={((1,),), ((2,), (-1,)), ((1,), (2,), (3,))}),
+    2: dict(D=2, Ctx={(0, 1), (1, 0), (1, 1), (2, -1)}, QuerySets={((1, 1),), ((0, 1), (2, -1)), ((1, 0), (1, 1), (2, -1))}),
+}
+
+
+def lin_jobs(tier, seed, ops=None, checks=None, regs=("ridge", "ucb", "ts"), tag=""):
+    jobs = []
+    lams = [(1, 2), (4, 1), (1, 1)] if tier == "thorough" else [[(1, 2), (4, 1)][seed % 2]]
+    ops = ops or {"fit", "partial_fit", "add_arm", "remove_arm", "predict_expectations", "predict"}
+    for d in (1, 2):
+        for lam in lams:
+            binds = []
+            for i, reg in enumerate(regs):
+                alpha = {"ridge": 0.0, "ucb": 1.25, "ts": 1e-9}[reg]
+                binds.append(dict(reg=reg, alpha=alpha, labelmap=["int", "str", "float"][(i + seed) % 3],
+                                  unit=["1", "1/4"][(i + d) % 2], container=["ndarray", "list", "frame"][(i + d + seed) % 3]))
+            common = dict(module="Lin", bindings=binds, invariants=ecf.LIN_INVARIANTS, properties=ecf.LIN_PROPERTIES)
+            if checks is not None:
+                common["checks"] = checks
+            grid = LIN_GRIDS[d]
+            depth = 4 if tier == "thorough" else 3
+            base = dict(grid, Lambda=lam, Ops=set(ops))
+            jobs.append(dict(common, name="lin%s-d%d-l%s-bfs" % (tag, d, "_".join(map(str, lam))), mode="bfs",
+                             consts=ecf.lin_consts(**dict(base, MaxDepth=depth, MaxHist=3, MaxBatch=1))))
+            n = 300 if tier == "thorough" else 80
+            jobs.append(dict(common, name="lin%s-d%d-l%s-sim" % (tag, d, "_".join(map(str, lam))), mode="sim", sim_num=n,
+                             seed=seed + d, consts=ecf.lin_consts(**dict(base, MaxDepth=8, MaxHist=8, MaxBatch=2))))
+    # scale=True, single fit (the case the property covers): Fit then queries, contexts as float64 / int arrays
+    for d in (1, 2):
+        lam = lams[d % len(lams)]
+        binds = []
+        for i, reg in enumerate(regs):
+            alpha = {"ridge": 0.0, "ucb": 1.25, "ts": 1e-9}[reg]
+            binds.append(dict(reg=reg, alpha=alpha, labelmap=["int", "str"][(i + seed) % 2], unit=["1", "1/4"][(i + d) % 2],
+                              ctx_dtype=["float64", "int", "float"][(i + seed) % 3]))
+        common = dict(module="Lin", bindings=binds, invariants=["Inv_C08_Keys"], properties=ecf.LIN_PROPERTIES)
+        if checks is not None:
+            common["checks"] = checks
+        grid = dict(LIN_GRIDS[d])
+        grid["Ctx"] = set(sorted(grid["Ctx"])[:3])
+        base = dict(grid, Lambda=lam, Ops={"fit", "predict_expectations", "predict"}, Scaled=True, Labels={"a", "b"},
+                    MaxBatch=3 if tier == "quick" else 4, MaxHist=4)
+        if tier == "quick":
+            jobs.append(dict(common, name="lin%s-scaled-d%d-sim" % (tag, d), mode="sim", sim_num=250, seed=seed + 7 * d,
+                             consts=ecf.lin_consts(**dict(base, MaxDepth=3))))
+        else:
+            jobs.append(dict(common, name="lin%s-scaled-d%d-bfs" % (tag, d), mode="bfs",
+                             consts=ecf.lin_consts(**dict(base, MaxDepth=3, MaxBatch=3))))
+            jobs.append(dict(common, name="lin%s-scaled-d%d-sim" % (tag, d), mode="sim", sim_num=600, seed=seed + 7 * d,
+                             consts=ecf.lin_consts(**dict(base, MaxDepth=3))))
+    return jobs
+
+
+def c02(report):
+    report.nontrivial_rule = ("Lin.tla edges replayed on LinGreedy/LinUCB/LinTS; non-trivial = query edges whose expectations "
+                              "were compared with the exact rational ridge solution and with numpy.linalg.solve")
+    jobs = lin_jobs(report.tier, report.seed)
+    ecf.run_jobs(report, jobs, by_clause("state.A", "state.Xty", "state.beta", "result.linear", "result.linalg",
+                                         "shape.rows", "call.exception"))
+    items = [("RidgeInitAinv", "Inv_C02_Unobserved"), ("XtyOverwritten", "Inv_C02_NormalEq"), ("FitKeepsA", "Prop_C07_FitIsFresh")]
+    for dev, expect in (items if report.tier == "thorough" else items[: 1 + report.seed % 2]):
+        ecf.lin_negative(report, dev, expect)
+    _nontrivial_from_counts(report, "cf.queries")
+    report.assumptions += ["contexts are small integer vectors and rewards integers times a dyadic unit: X'X and X'y are exact "
+                           "in floating point; beta and expectations are compared with relative tolerance 1e-9 (LinTS with "
+                           "alpha = 1e-9: 1e-6)", "scale=True is covered for a single fit (as the property states) through the rational identity "
+                           "(x-mu)'(C + lambda diag(s2))^-1 c"]
+
+
 def _nontrivial_from_counts(report, key=None):
     # distinct non-trivial cases are counted by the replay engine per job (distinct spec states / edges)
     n = report.coverage.get(key, 0) if key else report.coverage.get("cf.states", 0)
@@ -308,7 +380,7 @@ def _nontrivial_from_counts(report, key=None):
     report.evaluations = report.replayed
 
 
-CHECKS = {"C01": c01, "C03": c03, "C11": c11, "C12": c12, "C06": c06, "C07": c07, "C08": c08, "C09": c09, "C10": c10, "C13": c13, "C14": c14,
+CHECKS = {"C01": c01, "C02": c02, "C03": c03, "C11": c11, "C12": c12, "C06": c06, "C07": c07, "C08": c08, "C09": c09, "C10": c10, "C13": c13, "C14": c14,
           "C17": c17, "C19": c19}
 
 
